@@ -149,6 +149,7 @@ class Exec:
         self.ouid = []        # incarnation uid each was created for
         self.hashes = []      # first hash taken (None until taken)
         self.ran_false = []   # is_running() has returned False
+        self.ngen = {}        # slot -> number of processes spawned there so far
         self.twin_hash = []   # hash of a second object built at the same moment and hashed at once (lazy_hash configurations)
         self.viols = []
         self.label = ""
@@ -157,6 +158,14 @@ class Exec:
         self.modres = ModuleResidue([psutil, psutil._pslinux, psutil._common, psutil._psposix],
                                     known=("_pmap", "_pids_reused", "_LOWEST_PID", "BOOT_TIME"))
         self.cms = {}         # object index -> entered oneshot() context manager
+
+    def comm_for(self, slot):
+        """successive owners of one pid carry different names (so that a name taken from the wrong one shows)"""
+        base = self.cfg.comm.get(slot)
+        if base is not None:
+            return base
+        self.ngen[slot] = self.ngen.get(slot, 0) + 1
+        return b"p" + slot.encode() + (b"" if self.ngen[slot] % 2 else b"-again")
 
     # ------------------------------------------------------------ enabled
     def enabled(self):
@@ -264,7 +273,7 @@ class Exec:
         armed0 = [p for p in w.procs.values() if getattr(p, "fail_once", None)]
         if k == "spawn":
             w.tick(1)      # a recycled pid's new owner starts at a later jiffy
-            w.spawn(c.pid[ev[1]], ppid=1, comm=c.comm.get(ev[1], b"p" + ev[1].encode()))
+            w.spawn(c.pid[ev[1]], ppid=1, comm=self.comm_for(ev[1]))
         elif k == "exit":
             w.exit(c.pid[ev[1]])
         elif k == "reap":
@@ -357,7 +366,7 @@ class Exec:
                     world.exit(pid)
                 if e in ("spawn", "spawnZ", "recycle"):
                     world.tick(1)
-                    world.spawn(pid, ppid=1, comm=c.comm.get(s_, b"p" + s_.encode()))
+                    world.spawn(pid, ppid=1, comm=self.comm_for(s_))
                 if e == "spawnZ":
                     world.exit(pid)
                 seen.append("applied")
@@ -406,7 +415,7 @@ class Exec:
                 if "died" in seen and "respawned" not in seen:
                     if n >= k2:
                         world.tick(1)
-                        world.spawn(pid, ppid=1, comm=c.comm.get(s_, b"p" + s_.encode()))
+                        world.spawn(pid, ppid=1, comm=self.comm_for(s_))
                         seen.append("respawned")
                         world.hook = None
                     elif pid_ == pid:
@@ -503,6 +512,7 @@ class Exec:
         owner = w.owner_uid(o.pid)
         own = owner is not None and owner == self.ouid[i]
         was_gone = o._gone
+        name0 = o._name
         out = outcome(do_action, ps, o, a)
         eff = w.effects[n0:]
         self.label = "act:%s:%s:%s" % (a, "own" if own else ("other" if owner is not None else "free"),
@@ -521,6 +531,14 @@ class Exec:
                           % (a, self.ouid[i], o.pid, e[3], e))
         if len(eff) > 1:
             self.viol("multiple-deliveries:%s" % a, "%s delivered %r" % (a, eff))
+        if not own and owner is not None and out[0] == "exc" and out[1] == "NoSuchProcess":
+            nm = out[2].get("name")
+            cur = w.procs[o.pid].comm.decode("latin-1") if o.pid in w.procs else None
+            mine = [d.comm.decode("latin-1") for u, d in getattr(w, "dead", {}).items() if u == self.ouid[i]]
+            if nm is not None and name0 is None and nm == cur and nm not in mine:
+                # (a name() asked of the stale object earlier is the caller's own doing; here the ACTION went and fetched it)
+                self.viol("NoSuchProcess-names-the-new-owner", "%s() on a recycled pid raised NoSuchProcess carrying name=%r: that is the name of the process "
+                          "which owns the pid NOW (the object's own process was called %r)" % (a, nm, mine))
         if not own and owner is not None:
             if not (out[0] == "exc" and out[1] == "NoSuchProcess"):
                 self.viol("no-NSP-on-recycled-pid:%s" % ("object-already-marked-gone" if was_gone else "object-not-marked"),
